@@ -4,6 +4,7 @@ R08.1 TransportService emits ConnectionEstablished only with the insertion of th
       with its removal; secondary store / promote paths emit nothing
 R08.2 outbound substream ids come from one shared atomic counter (fetch_add), created once
 R08.3 substream-open failures carry the id of the command that asked for the substream (all transports)
+R08.5 every outbound open future is awaited only through tokio::time::timeout armed with the configured open timeout (all transports)
 R08.4 TransportService::open_substream sends exactly one open request, on the primary connection, with the permit it acquired
 """
 import re
@@ -114,7 +115,7 @@ def r08_2(ctx, fx):
 
 
 def r08_3(ctx, fx):
-    n = 0
+    n = n5 = 0
     for key in sorted(fx.find(r"^transport::(tcp|websocket|quic)::connection::\w+::(handle_protocol_command|start|run_event_loop)::\{closure#0\}::\{closure#\d+\}$")):
         fn = fx.fn(key)
         if not fn.is_coroutine:
@@ -122,22 +123,36 @@ def r08_3(ctx, fx):
         # the future that opens an *outbound* substream on behalf of a protocol command
         if not [c for c in fn.calls(r"Connection::open_substream$")]:
             continue
-        aggs = fn.aggregates(r"ConnectionError$")
         ctx.bodies.add((fx.cfg, key))
-        for node, s in aggs:
+        # the error may also be built in a nested closure (`.map_err(|e| ConnectionError::..)`): same capture discipline applies
+        holders = [fn] + [fx.fn(k) for k in sorted(fx.find("^" + re.escape(key) + r"::\{closure#\d+\}$"))]
+        aggs = [(h, node, s) for h in holders for node, s in h.aggregates(r"ConnectionError$")]
+        n += 1 if [1 for _, _, s in aggs if "substream_id" in s["rv"].get("fields", [])] else 0
+        for fn_, node, s in aggs:
             rv = s["rv"]
             if "substream_id" not in rv.get("fields", []):
                 continue
-            n += 1
             for fld in ("substream_id", "protocol"):
                 o = rv["ops"][rv["fields"].index(fld)]
-                sh = fn.shape(o)
-                rs = guards.rootstrs(fn, o)
+                sh = fn_.shape(o)
+                rs = guards.rootstrs(fn_, o)
                 ok = all(x.startswith("Some") for x in sh) and bool(rs) and all(x.startswith("param:_1") or x.startswith("call:<") and "Clone" in x for x in rs)
-                ctx.ob("R08.3", "%s/ConnectionError::%s.%s-is-Some(captured-command-value)" % (short(key), rv["var"], fld), ok, site=fn.site(node), cfg=fx.cfg,
+                ctx.ob("R08.3", "%s/ConnectionError::%s.%s-is-Some(captured-command-value)" % (short(key), rv["var"], fld), ok, site=fn_.site(node), cfg=fx.cfg,
                        detail="an outbound substream-open failure must carry the id/protocol of the command, otherwise the failure is never reported to "
                               "the protocol that asked; shape %s roots %s" % (sorted(sh), sorted(rs)))
-    ctx.anchor("R08.3", "outbound ConnectionError aggregates", n, 2 if fx.cfg == "default" else 6, cfg=fx.cfg)
+        # R08.5: the open future is awaited only through a timer armed with the configured duration - the timer is the only thing that
+        # answers a request whose yamux/quic open_stream() never completes (ack backlog full, peer silent)
+        for i, c in enumerate(fn.calls(r"Connection::open_substream$")):
+            tm = [t for t in fn.calls(r"^tokio::time::timeout$") if len(t.args) > 1 and any(x.startswith("call:") and "open_substream" in x for x in guards.rootstrs(fn, t.args[1]))]
+            ctx.ob("R08.5", "%s/open-future#%d-awaited-only-under-timeout" % (short(key), i), bool(tm), site=fn.site(c.node), cfg=fx.cfg,
+                   detail="the whole open (stream allocation + negotiation) must be bounded, else an accepted request can stay unanswered on a live connection")
+            for t in tm:
+                rs = guards.rootstrs(fn, t.args[0])
+                ctx.ob("R08.5", "%s/open-timeout#%d-is-the-configured-duration" % (short(key), i), bool(rs) and all(x.startswith("param:_1") for x in rs),
+                       site=fn.site(t.node), cfg=fx.cfg, detail=str(sorted(rs)))
+            n5 += 1
+    ctx.anchor("R08.5", "outbound open futures", n5, 1 if fx.cfg == "default" else 3, cfg=fx.cfg)
+    ctx.anchor("R08.3", "outbound open futures building a ConnectionError", n, 1 if fx.cfg == "default" else 3, cfg=fx.cfg)
     # the reporting side: report_substream_open_failure receives the id taken from the error
     for key in sorted(fx.find(r"^transport::tcp::connection::\w+::handle_negotiated_substream::\{closure#0\}$")):
         fn = fx.fn(key)
